@@ -63,7 +63,8 @@ Cross == /\ status = "filtered" /\ pos < Len(Paths[pid])
          /\ pos' = pos + 1
          /\ UNCHANGED <<input, pid, kept, status>>
 
-Next == (\E l \in LaunchLists : \E p \in 1..Len(Paths) : Launch(l, p)) \/ Filter \/ Cross
+Next == \/ (status = "idle" /\ \E l \in LaunchLists : \E p \in 1..Len(Paths) : Launch(l, p))
+        \/ Filter \/ Cross
 Spec == Init /\ [][Next]_vars
 
 -----------------------------------------------------------------------------
